@@ -368,7 +368,7 @@ impl BState {
                     Some((_, a_hi)) => {
                         let el = poll.r_at - a_hi;
                         if el >= GRACE_NS {
-                            viol.push((vec!["C13"], "grace_after_5s", format!("exact={}", el == GRACE_NS), format!("FreeRunning-class outcome although the last good answer was {el} ns old when the failed step returned")));
+                            viol.push((vec!["C13", "C08"], "grace_after_5s", format!("exact={}", el == GRACE_NS), format!("FreeRunning-class outcome although the last good answer was {el} ns old when the failed step returned")));
                         } else {
                             probes.push("judged.grace_class_outcomes");
                             if GRACE_NS - el < 1_100_000_000 {
@@ -382,7 +382,7 @@ impl BState {
                 if let Some((a_lo, _)) = lg {
                     let el = poll.send_at.unwrap_or(poll.msg_at) - a_lo;
                     if el < GRACE_NS {
-                        viol.push((vec!["C13"], "unknown_within_5s", format!("el_s={}", el / 1_000_000_000), format!("Unknown-class outcome although the last good answer was only {el} ns old when the message was sent")));
+                        viol.push((vec!["C13", "C08"], "unknown_within_5s", format!("el_s={}", el / 1_000_000_000), format!("Unknown-class outcome although the last good answer was only {el} ns old when the message was sent")));
                     } else {
                         probes.push("judged.unknown_class_outcomes");
                         if el - GRACE_NS < 1_100_000_000 {
